@@ -9,7 +9,7 @@
      ResetExtendedSpatialID applied repeatedly to one object                                  (reset_seq)
    Theorems: both round trips, length/order, arity error, parse ∘ ID, normalisation, and for the expansion: NoDup, target zoom = max h v,
    4^d resp. 2^d results, exact partition of the voxel's region (Voxel.inR), pairwise disjointness; soundness of the run-time checkers. *)
-From Coq Require Import ZArith String Ascii List Bool Lia Permutation DecimalString Decimal Reals.
+From Coq Require Import ZArith String Ascii List Bool Lia Permutation DecimalString Decimal Reals Sorting.Mergesort Orders Sorted.
 From Flocq Require Import Core.
 From SID Require Import Base Str Ids Voxel ZoomCore.
 Import ListNotations.
@@ -309,9 +309,9 @@ Theorem new_eid_ID i : fields_ok i = true -> new_eid (print_eid i) = Ok i.
 Proof. intros H. unfold new_eid. now rewrite parse_print_eid. Qed.
 (* parsing a string and printing the object: the numbers are kept, the characters are normalised (canonical decimal form);
    re-parsing the printed form gives the same object, so ID() ∘ New is idempotent *)
-Theorem ID_new_eid s i : new_eid s = Ok i -> new_eid (print_eid i) = Ok i /\ field_params i = [eh i; ex i; ey i; ev i; ef i].
+Theorem ID_new_eid s i : new_eid s = Ok i -> new_eid (print_eid i) = Ok i.
 Proof.
-  unfold new_eid. destruct (parse_eid s) as [j|] eqn:E; [|discriminate]. intros [= <-]. split; [|reflexivity].
+  unfold new_eid. destruct (parse_eid s) as [j|] eqn:E; [|discriminate]. intros [= <-].
   rewrite parse_print_eid; [reflexivity|]. eapply parse_eid_fields_ok; eauto.
 Qed.
 Lemma print_eid_inj i j : fields_ok i = true -> fields_ok j = true -> print_eid i = print_eid j -> i = j.
@@ -564,17 +564,43 @@ Lemma parse_unfold s : parse s =
   | None => None
   end.
 Proof. reflexivity. Qed.
-(* `n, _ := strconv.ParseInt(s, 10, 64)`: 0 on a syntax error, the nearest int64 on a range error *)
-Definition parse_lenient (s : string) : Z :=
-  match NilZero.int_of_string (parse_body s) with
-  | Some d => let z := Z.of_int d in if int64_ok z then z else if z <? 0 then - 2 ^ 63 else 2 ^ 63 - 1
-  | None => 0
+(* `n, _ := strconv.ParseInt(s, 10, 64)` with the error discarded. strconv scans the digits LEFT TO RIGHT: a byte that is not a digit gives
+   (0, syntax error); as soon as the accumulated value leaves uint64 it returns the saturated value with a range error WITHOUT looking at the
+   remaining bytes ("99999999999999999999x" gives MaxInt64, "18446744073709551615x" gives 0); a value inside uint64 but outside int64 is
+   saturated after the scan. On success the value is Str.parse's. *)
+Inductive ures := USyntax | URange | UVal (n : Z).
+Definition digit_of (c : ascii) : option Z :=
+  let k := Z.of_nat (nat_of_ascii c) in if (48 <=? k) && (k <=? 57) then Some (k - 48) else None.
+Fixpoint scan_uint (s : string) (n : Z) : ures :=
+  match s with
+  | EmptyString => UVal n
+  | String c r => match digit_of c with
+                  | None => USyntax
+                  | Some d => if 2 ^ 64 <=? n * 10 + d then URange else scan_uint r (n * 10 + d)
+                  end
   end.
+Definition parse_uint (s : string) : ures := match s with EmptyString => USyntax | _ => scan_uint s 0 end.
+Definition parse_failed_value (s : string) : Z :=
+  match s with
+  | EmptyString => 0
+  | String c r =>
+      let neg := Ascii.eqb c "-"%char in
+      let body := if Ascii.eqb c "+"%char || neg then r else s in
+      match parse_uint body with
+      | USyntax => 0
+      | URange => if neg then - 2 ^ 63 else 2 ^ 63 - 1
+      | UVal un => if neg then (if 2 ^ 63 <? un then - 2 ^ 63 else - un) else (if 2 ^ 63 <=? un then 2 ^ 63 - 1 else un)
+      end
+  end.
+Definition parse_lenient (s : string) : Z := match parse s with Some z => z | None => parse_failed_value s end.
 Lemma parse_lenient_ok s z : parse s = Some z -> parse_lenient s = z.
-Proof.
-  rewrite parse_unfold. unfold parse_lenient. destruct (NilZero.int_of_string (parse_body s)) as [d|]; [|discriminate].
-  cbv zeta. destruct (int64_ok (Z.of_int d)); [|discriminate]. now intros [= <-].
-Qed.
+Proof. unfold parse_lenient. now intros ->. Qed.
+Example parse_lenient_examples :
+  map parse_lenient ["99999999999999999999x"; "-99999999999999999999 "; "18446744073709551616_"; "18446744073709551615x"; "9223372036854775808x";
+                     "9223372036854775808"; "-9223372036854775809"; "x99999999999999999999"; "+99999999999999999999";
+                     "00000000000000000000000007"; "0000000000000000000018446744073709551616x"; "-"; "+"; ""; "1_0"; "+-1"; "-007"]%string
+  = [2 ^ 63 - 1; - 2 ^ 63; 2 ^ 63 - 1; 0; 0; 2 ^ 63 - 1; - 2 ^ 63; 0; 2 ^ 63 - 1; 7; 2 ^ 63 - 1; 0; 0; 0; 0; 0; -7].
+Proof. vm_compute. reflexivity. Qed.
 (* fewer than five fields: the empty slice (after the repair c5e2aa4; before it the index expression ids[4] panicked) *)
 Definition voxel_id (s : string) : list Z :=
   match split s with
@@ -595,8 +621,9 @@ Proof.
   unfold voxel_id. destruct (split s) as [|a [|b [|c [|d [|e r]]]]]; cbn; split; intros H; try reflexivity; try discriminate; try lia.
 Qed.
 Example voxel_id_ignores_errors :
-  voxel_id "1/x/99999999999999999999/1/-99999999999999999999/9/9" = [0; 2 ^ 63 - 1; - 2 ^ 63] /\ voxel_id "1/2/3/4" = [].
-Proof. vm_compute. split; reflexivity. Qed.
+  voxel_id "1/x/99999999999999999999/1/-99999999999999999999/9/9" = [0; 2 ^ 63 - 1; - 2 ^ 63] /\ voxel_id "1/2/3/4" = [] /\
+  voxel_id "1/99999999999999999999x/-99999999999999999999 /1/18446744073709551616_" = [2 ^ 63 - 1; - 2 ^ 63; 2 ^ 63 - 1].
+Proof. vm_compute. repeat split; reflexivity. Qed.
 
 (* =====================================================================================================================
    6. run-time checkers (boolean), applied by DC10.v to the implementation's observed output, with soundness proofs.
@@ -704,18 +731,27 @@ Proof.
   - rewrite <- eids_to_sids_err. destruct (eids_to_sids l); cbn; split; congruence.
 Qed.
 
+(* what the two list conversions return TOGETHER WITH the error: the conversions of the elements before the first bad one *)
+Fixpoint map_opt_prefix {A B} (f : A -> option B) (l : list A) : list B :=
+  match l with [] => [] | a :: r => match f a with Some b => b :: map_opt_prefix f r | None => [] end end.
+Lemma map_opt_prefix_all {A B} (f : A -> option B) l r : map_opt f l = Some r -> map_opt_prefix f l = r.
+Proof.
+  revert r. induction l as [|a l IH]; cbn; intros r; [now intros [= <-]|].
+  destruct (f a); [|discriminate]. destruct (map_opt f l) as [t|]; [|discriminate]. intros [= <-]. now rewrite (IH t).
+Qed.
+
 (* ---- both directions in one call: dir = true: spatial -> extended -> spatial; dir = false: extended -> spatial -> extended ---- *)
 Definition roundtrip_model (dir : bool) (l : list string) : result (list string * list string) :=
   if dir then match sids_to_eids l with Ok r1 => match eids_to_sids r1 with Ok r2 => Ok (r1, r2) | Err => Err end | Err => Err end
   else match eids_to_sids l with Ok r1 => match sids_to_eids r1 with Ok r2 => Ok (r1, r2) | Err => Err end | Err => Err end.
 Definition roundtrip_spec (dir : bool) (l : list string) (obs : option (list string * list string)) : Prop :=
   match obs with
-  | Some (r1, r2) => length r1 = length l /\ r2 = (if dir then l else map collapse_v l) /\ arity_okb (if dir then 4 else 5)%nat l = true
+  | Some (r1, r2) => Forall2 (if dir then s2e_rel else e2s_rel) l r1 /\ r2 = (if dir then l else map collapse_v l)
   | None => exists s, In s l /\ length (split s) <> (if dir then 4 else 5)%nat
   end.
 Definition check_roundtrip (dir : bool) (l : list string) (obs : option (list string * list string)) : bool :=
   match obs with
-  | Some (r1, r2) => Nat.eqb (length r1) (length l) && same_list r2 (if dir then l else map collapse_v l) && arity_okb (if dir then 4 else 5)%nat l
+  | Some (r1, r2) => forall2b (if dir then s2e_relb else e2s_relb) l r1 && same_list r2 (if dir then l else map collapse_v l)
   | None => negb (arity_okb (if dir then 4 else 5)%nat l)
   end.
 Lemma same_list_spec a b : same_list a b = true <-> a = b.
@@ -723,7 +759,8 @@ Proof. unfold same_list. destruct (list_eqb_spec String.eqb String.eqb_spec a b)
 Theorem check_roundtrip_sound dir l obs : check_roundtrip dir l obs = true <-> roundtrip_spec dir l obs.
 Proof.
   unfold check_roundtrip, roundtrip_spec. destruct obs as [[r1 r2]|].
-  - rewrite !andb_true_iff, Nat.eqb_eq, same_list_spec. tauto.
+  - rewrite andb_true_iff, same_list_spec.
+    destruct dir; [rewrite (forall2b_spec _ _ s2e_relb_spec)|rewrite (forall2b_spec _ _ e2s_relb_spec)]; tauto.
   - rewrite negb_true_iff. apply arity_okb_false.
 Qed.
 Lemma arity_okb_true_s2e l : arity_okb 4 l = true <-> exists r, sids_to_eids l = Ok r.
@@ -745,12 +782,12 @@ Theorem roundtrip_model_spec dir l : roundtrip_spec dir l (res_opt (roundtrip_mo
 Proof.
   unfold roundtrip_model. destruct dir.
   - destruct (sids_to_eids l) as [r1|] eqn:E1.
-    + rewrite (sids_eids_sids l r1 E1). cbn. split; [apply (sids_to_eids_positions l r1 E1)|]. split; [reflexivity|].
-      apply arity_okb_true_s2e. eauto.
+    + rewrite (sids_eids_sids l r1 E1). cbn. split; [|reflexivity].
+      apply (proj2 (s2e_spec_model l (Some r1))). now rewrite E1.
     + cbn. now apply sids_to_eids_err.
   - destruct (eids_to_sids l) as [r1|] eqn:E1.
-    + rewrite (eids_sids_eids l r1 E1). cbn. split; [apply (eids_to_sids_positions l r1 E1)|]. split; [reflexivity|].
-      apply arity_okb_true_e2s. eauto.
+    + rewrite (eids_sids_eids l r1 E1). cbn. split; [|reflexivity].
+      apply (proj2 (e2s_spec_model l (Some r1))). now rewrite E1.
     + cbn. now apply eids_to_sids_err.
 Qed.
 
@@ -789,16 +826,74 @@ Proof.
 Qed.
 
 (* ---- the expansion, observed as a list of strings: all at the target zoom, each overlapping the input, no voxel twice, count = closed form ---- *)
-Fixpoint nodup_eids (l : list eid) : bool :=
-  match l with [] => true | a :: r => negb (memb eid_eqb a r) && nodup_eids r end.
-Lemma nodup_eids_spec l : nodup_eids l = true <-> NoDup l.
+(* the same decision as Ids.eid_eqb, comparing first the fields that differ between the members of one expansion *)
+Definition eid_eqb_f (a b : eid) : bool :=
+  (ef a =? ef b) && (ey a =? ey b) && (ex a =? ex b) && (eh a =? eh b) && (ev a =? ev b).
+Lemma eid_eqb_f_spec a b : reflect (a = b) (eid_eqb_f a b).
 Proof.
-  induction l as [|a r IH]; cbn; [split; [constructor|reflexivity]|].
-  rewrite andb_true_iff, negb_true_iff, IH. split.
-  - intros [Hm Hr]. constructor; [|exact Hr]. intros Hin. apply (memb_In eid_eqb eid_eqb_spec) in Hin. congruence.
-  - intros H. inversion H as [|? ? Ha Hr]; subst. split; [|exact Hr]. apply not_true_is_false. intros Hm.
-    apply (memb_In eid_eqb eid_eqb_spec) in Hm. contradiction.
+  destruct a as [a1 a2 a3 a4 a5], b as [b1 b2 b3 b4 b5]. unfold eid_eqb_f; cbn.
+  destruct (Z.eqb_spec a5 b5), (Z.eqb_spec a3 b3), (Z.eqb_spec a2 b2), (Z.eqb_spec a1 b1), (Z.eqb_spec a4 b4);
+    cbn; constructor; congruence.
 Qed.
+
+(* duplicate test in O(n log n): sort integer keys and require strictly increasing neighbours (the quadratic test costs seconds on the
+   4096 results of a zoom difference 12) *)
+Module ZLe <: Orders.TotalLeBool.
+  Definition t := Z.
+  Definition leb := Z.leb.
+  Theorem leb_total : forall a b, leb a b = true \/ leb b a = true.
+  Proof. intros a b. unfold leb. rewrite !Z.leb_le. lia. Qed.
+End ZLe.
+Module ZSort := Mergesort.Sort ZLe.
+Fixpoint strict_incr (l : list Z) : bool :=
+  match l with a :: (b :: _) as r => (a <? b) && strict_incr r | _ => true end.
+Definition nodup_keys (ks : list Z) : bool := strict_incr (ZSort.sort ks).
+Lemma strict_incr_head a r : strict_incr (a :: r) = true -> Forall (fun b => a < b) r /\ strict_incr r = true.
+Proof.
+  revert a. induction r as [|b r IH]; intros a H; [split; [constructor|reflexivity]|].
+  cbn [strict_incr] in H. apply andb_true_iff in H. destruct H as [Hab Hr]. apply Z.ltb_lt in Hab. split; [|exact Hr].
+  constructor; [exact Hab|]. destruct (IH b Hr) as [F _]. eapply Forall_impl; [|exact F]. cbn. intros c Hc. lia.
+Qed.
+Lemma strict_incr_NoDup l : strict_incr l = true -> NoDup l.
+Proof.
+  induction l as [|a r IH]; intros H; [constructor|]. destruct (strict_incr_head a r H) as [F Hr]. constructor; [|now apply IH].
+  intros Hin. rewrite Forall_forall in F. specialize (F a Hin). lia.
+Qed.
+Lemma sorted_NoDup_strict l : Sorted.StronglySorted (fun a b => is_true (Z.leb a b)) l -> NoDup l -> strict_incr l = true.
+Proof.
+  induction 1 as [|a r Hs IH Ha]; intros ND; [reflexivity|]. inversion ND as [|? ? Hn Hr]; subst.
+  destruct r as [|b r']; [reflexivity|]. cbn [strict_incr]. apply andb_true_iff. split; [|now apply IH].
+  apply Z.ltb_lt. inversion Ha as [|? ? Hab _]; subst. unfold is_true in Hab. apply Z.leb_le in Hab.
+  assert (a <> b) by (intros ->; apply Hn; now left). lia.
+Qed.
+Lemma nodup_keys_spec ks : nodup_keys ks = true <-> NoDup ks.
+Proof.
+  unfold nodup_keys. pose proof (ZSort.Permuted_sort ks) as P. split.
+  - intros H. apply strict_incr_NoDup in H. eapply Permutation_NoDup; [apply Permutation_sym; exact P|exact H].
+  - intros H. apply sorted_NoDup_strict; [|eapply Permutation_NoDup; [exact P|exact H]].
+    apply ZSort.StronglySorted_sort. intros a b c. unfold is_true, ZLe.leb. rewrite !Z.leb_le. lia.
+Qed.
+(* key of a result record: injective on records whose y and f are within 36 bits (all valid voxels) and whose zooms agree *)
+Definition eid_key (j : eid) : Z := (ex j * 68719476736 + ey j) * 137438953472 + (ef j + 68719476736).   (* 2^36, 2^37 *)
+Lemma eid_key_inj a b : eh a = eh b -> ev a = ev b -> 0 <= ey a < 2 ^ 36 -> 0 <= ey b < 2 ^ 36 ->
+  - 2 ^ 36 <= ef a < 2 ^ 36 -> - 2 ^ 36 <= ef b < 2 ^ 36 -> eid_key a = eid_key b -> a = b.
+Proof.
+  destruct a as [a1 a2 a3 a4 a5], b as [b1 b2 b3 b4 b5]; cbn [eh ex ey ev ef]. unfold eid_key; cbn [ex ey ef].
+  change 68719476736 with (2 ^ 36). change 137438953472 with (2 ^ 37).
+  intros -> -> Hya Hyb Hfa Hfb K.
+  assert (P37 : 2 ^ 37 = 2 * 2 ^ 36) by reflexivity.
+  set (P := 2 ^ 36) in *. assert (0 < P) by (unfold P; reflexivity). rewrite P37 in K.
+  assert (E1 : a2 * P + a3 = b2 * P + b3 /\ a5 + P = b5 + P).
+  { assert (0 <= a5 + P < 2 * P) by lia. assert (0 <= b5 + P < 2 * P) by lia.
+    generalize dependent (a5 + P). generalize dependent (b5 + P). intros fb Hfb' fa K Hfa'.
+    generalize dependent (a2 * P + a3). generalize dependent (b2 * P + b3). intros qb qa K. nia. }
+  destruct E1 as [E1 E2]. assert (a5 = b5) by lia. assert (a2 = b2 /\ a3 = b3) by nia. f_equal; lia.
+Qed.
+Definition nodup_eids (l : list eid) : bool := nodup_keys (map eid_key l).
+Lemma nodup_eids_NoDup l : nodup_eids l = true -> NoDup l.
+Proof. unfold nodup_eids. rewrite nodup_keys_spec. apply NoDup_map_inv. Qed.
+Lemma NoDup_nodup_eids l : (forall a b, In a l -> In b l -> eid_key a = eid_key b -> a = b) -> NoDup l -> nodup_eids l = true.
+Proof. intros Hinj H. unfold nodup_eids. rewrite nodup_keys_spec. now apply NoDup_map_in. Qed.
 Definition member_okb (i j : eid) : bool := (eh j =? tzoom i) && (ev j =? tzoom i) && overlapsb i j.
 Definition check_expand_rec (i : eid) (js : list eid) : bool :=
   forallb (member_okb i) js && nodup_eids js && (Z.of_nat (length js) =? expand_count i).
@@ -806,7 +901,7 @@ Definition check_expand (s : string) (obs : option (list string)) : bool :=
   match parse_eid s, obs with
   | Some i, Some o =>
       if validb i then match map_opt parse_sid o with Some js => check_expand_rec i js | None => false end
-      else true                     (* outside the grid the property is silent *)
+      else false                    (* off the grid nothing is accepted: the dispatch entry does not ask (class "skipped") *)
   | None, None => true
   | _, _ => false
   end.
@@ -815,24 +910,30 @@ Lemma expand_count_pos i : 0 < expand_count i.
 Proof. unfold expand_count. destruct (Z.leb_spec (eh i) (ev i)); apply Z.pow_pos_nonneg; lia. Qed.
 
 (* accepted  <->  the observed records are a permutation of the expansion *)
-Theorem check_expand_rec_sound i js : 0 <= eh i -> 0 <= ev i -> 0 <= ex i -> 0 <= ey i ->
+Theorem check_expand_rec_sound i js : valid i ->
   check_expand_rec i js = true <-> Permutation js (expand_rec i).
 Proof.
-  intros Hh Hv Hx Hy. unfold check_expand_rec. rewrite !andb_true_iff, forallb_forall, nodup_eids_spec, Z.eqb_eq. split.
-  - intros ((Hall & Hnd) & Hlen). apply NoDup_Permutation_bis; [exact Hnd| |].
+  intros V. pose proof V as (Hh & Hv & Hx & Hy & _).
+  unfold check_expand_rec. rewrite !andb_true_iff, forallb_forall, Z.eqb_eq. split.
+  - intros ((Hall & Hnd) & Hlen). apply nodup_eids_NoDup in Hnd. apply NoDup_Permutation_bis; [exact Hnd| |].
     + rewrite expand_rec_length, <- Hlen, Nat2Z.id. apply le_n.
-    + intros j Hj. apply expand_rec_spec; try assumption. specialize (Hall j Hj). unfold member_okb in Hall.
+    + intros j Hj. apply expand_rec_spec; try lia. specialize (Hall j Hj). unfold member_okb in Hall.
       rewrite !andb_true_iff, !Z.eqb_eq, overlapsb_spec in Hall. tauto.
   - intros P. repeat split.
-    + intros j Hj. apply (Permutation_in _ P) in Hj. apply expand_rec_spec in Hj; try assumption. unfold member_okb.
+    + intros j Hj. apply (Permutation_in _ P) in Hj. apply expand_rec_spec in Hj; try lia. unfold member_okb.
       rewrite !andb_true_iff, !Z.eqb_eq, overlapsb_spec. tauto.
-    + apply (Permutation_NoDup (Permutation_sym P)). apply expand_rec_NoDup.
+    + apply NoDup_nodup_eids; [|apply (Permutation_NoDup (Permutation_sym P)); apply expand_rec_NoDup].
+      assert (B : forall j, In j js -> eh j = tzoom i /\ ev j = tzoom i /\ 0 <= ey j < 2 ^ 36 /\ - 2 ^ 36 <= ef j < 2 ^ 36).
+      { intros j Hj. apply (Permutation_in _ P) in Hj. destruct (expand_rec_valid i j V Hj) as ((Jh & Jv & Jx & Jy & Jf) & E1 & E2).
+        assert (2 ^ eh j <= 2 ^ 36) by (apply Z.pow_le_mono_r; lia). assert (2 ^ ev j <= 2 ^ 36) by (apply Z.pow_le_mono_r; lia). lia. }
+      intros a b Ha Hb K. destruct (B a Ha) as (A1 & A2 & A3 & A4). destruct (B b Hb) as (B1 & B2 & B3 & B4).
+      apply eid_key_inj; try assumption; congruence.
     + rewrite (Permutation_length P), expand_rec_length. pose proof (expand_count_pos i). lia.
 Qed.
 
 Definition expand_spec (s : string) (obs : option (list string)) : Prop :=
   match parse_eid s, obs with
-  | Some i, Some o => valid i -> exists js, map_opt parse_sid o = Some js /\ Permutation js (expand_rec i)
+  | Some i, Some o => valid i /\ exists js, map_opt parse_sid o = Some js /\ Permutation js (expand_rec i)
   | None, None => True
   | _, _ => False
   end.
@@ -840,12 +941,12 @@ Theorem check_expand_sound s obs : check_expand s obs = true <-> expand_spec s o
 Proof.
   unfold check_expand, expand_spec. destruct (parse_eid s) as [i|], obs as [o|]; try tauto; try (split; [discriminate|tauto]).
   destruct (validb i) eqn:V.
-  - apply validb_spec in V. pose proof V as (Hh & Hv & Hx & Hy & _). destruct (map_opt parse_sid o) as [js|].
-    + rewrite check_expand_rec_sound by lia. split.
-      * intros P _. eauto.
-      * intros H. destruct (H V) as (js' & [= <-] & P). exact P.
-    + split; [discriminate|]. intros H. destruct (H V) as (js' & E & _). discriminate.
-  - split; [|reflexivity]. intros _ V'. apply validb_spec in V'. congruence.
+  - apply validb_spec in V. destruct (map_opt parse_sid o) as [js|].
+    + rewrite check_expand_rec_sound by exact V. split.
+      * intros P. eauto.
+      * intros (_ & js' & [= <-] & P). exact P.
+    + split; [discriminate|]. intros (_ & js' & E & _). discriminate.
+  - split; [discriminate|]. intros (V' & _). apply validb_spec in V'. congruence.
 Qed.
 (* consequences, on the observed output: no string twice, every string a valid spatial ID at zoom max h v, the count, the exact partition *)
 Theorem expand_spec_consequences s i o : parse_eid s = Some i -> valid i -> expand_spec s (Some o) ->
@@ -854,7 +955,7 @@ Theorem expand_spec_consequences s i o : parse_eid s = Some i -> valid i -> expa
   (forall p, inR i p <-> exists t j, In t o /\ parse_sid t = Some j /\ inR j p) /\
   (forall n m t u j k p, nth_error o n = Some t -> nth_error o m = Some u -> parse_sid t = Some j -> parse_sid u = Some k -> inR j p -> inR k p -> n = m).
 Proof.
-  intros Hs Hv. unfold expand_spec. rewrite Hs. intros H. destruct (H Hv) as (js & Hjs & P). clear H.
+  intros Hs Hv. unfold expand_spec. rewrite Hs. intros (_ & js & Hjs & P).
   pose proof Hv as (Hh & Hvv & Hx & Hy & _).
   assert (F : Forall2 (fun t j => parse_sid t = Some j) o js) by now apply map_opt_Forall2.
   assert (ND : NoDup js) by (apply (Permutation_NoDup (Permutation_sym P)); apply expand_rec_NoDup).
@@ -886,15 +987,34 @@ Proof.
       - apply (Permutation_in _ P). eapply nth_error_In; eauto. }
     subst k. apply (proj1 (NoDup_nth_error js) ND); [apply nth_error_Some; congruence|congruence].
 Qed.
-(* the model passes its own checker for every input string: on the unmodified code the check cannot raise an alarm *)
-Theorem expand_model_spec s : expand_spec s (res_opt (expand_api s)).
+(* the model passes its own checker for every string that is malformed or a valid ID of the grid (off the grid the entry does not ask) *)
+Definition on_grid (s : string) : Prop := forall i, parse_eid s = Some i -> valid i.
+Theorem expand_model_spec s : on_grid s -> expand_spec s (res_opt (expand_api s)).
 Proof.
-  unfold expand_spec, expand_api. destruct (parse_eid s) as [i|] eqn:E; cbn; [|exact I].
-  intros Hv. exists (expand_rec i). split; [|apply Permutation_refl].
+  unfold on_grid, expand_spec, expand_api. destruct (parse_eid s) as [i|] eqn:E; cbn; [|intros _; exact I].
+  intros G. pose proof (G i eq_refl) as Hv. split; [exact Hv|]. exists (expand_rec i). split; [|apply Permutation_refl].
   rewrite expand_eid_rec. apply map_opt_Forall2.
   assert (H : forall j, In j (expand_rec i) -> parse_sid (print_sid j) = Some j).
   { intros j Hj. destruct (expand_rec_valid i j Hv Hj) as (Vj & E1 & E2). apply parse_print_sid; [now apply valid_fields_ok|congruence]. }
   induction (expand_rec i) as [|j r IH]; cbn; constructor; [apply H; now left|apply IH; intros; apply H; now right].
+Qed.
+
+(* the same decision, cheaper on conforming output: an observation equal to the model's list (order included) is accepted without parsing
+   its strings again — justified by expand_model_spec; every other observation goes through check_expand *)
+Definition check_expand_fast (s : string) (obs : option (list string)) : bool :=
+  match parse_eid s, obs with
+  | Some i, Some o => if validb i && same_list o (expand_eid i) then true else check_expand s obs
+  | _, _ => check_expand s obs
+  end.
+Theorem check_expand_fast_sound s obs : check_expand_fast s obs = true <-> expand_spec s obs.
+Proof.
+  unfold check_expand_fast. destruct (parse_eid s) as [i|] eqn:E; [|apply check_expand_sound].
+  destruct obs as [o|]; [|apply check_expand_sound].
+  destruct (validb i && same_list o (expand_eid i)) eqn:F; [|apply check_expand_sound].
+  apply andb_true_iff in F. destruct F as [V F]. apply validb_spec in V. apply same_list_spec in F. subst o.
+  split; [intros _|reflexivity].
+  assert (G : on_grid s) by (intros j Hj; congruence).
+  pose proof (expand_model_spec s G) as H. unfold expand_api in H. rewrite E in H. exact H.
 Qed.
 
 (* several expansions in a row (the API has no state: each call must satisfy the statement on its own) *)
@@ -902,31 +1022,23 @@ Definition expand_seq_model (l : list string) : list (option (list string)) := m
 Definition check_expand_seq (l : list string) (obs : list (option (list string))) : bool := forall2b check_expand l obs.
 Theorem check_expand_seq_sound l obs : check_expand_seq l obs = true <-> Forall2 expand_spec l obs.
 Proof. apply forall2b_spec. apply check_expand_sound. Qed.
-Theorem expand_seq_model_spec l : Forall2 expand_spec l (expand_seq_model l).
-Proof. induction l as [|s l IH]; cbn; constructor; [apply expand_model_spec|exact IH]. Qed.
+Theorem expand_seq_model_spec l : Forall on_grid l -> Forall2 expand_spec l (expand_seq_model l).
+Proof. induction 1 as [|s l Hs Hl IH]; cbn; constructor; [now apply expand_model_spec|exact IH]. Qed.
 
-(* ---- GetVoxelIDfromSpatialID observed as a list of integers: [x; y; f] for a well-formed ID, nothing for fewer than five fields ---- *)
+(* ---- GetVoxelIDfromSpatialID observed as a list of integers. The checker demands the model's value for EVERY string (also malformed
+        ones with five or more fields, where the discarded strconv errors decide); voxel_id_spec / voxel_id_empty say what that value is on
+        well-formed IDs and on short strings ---- *)
 Definition voxel_spec (s : string) (obs : list Z) : Prop :=
-  (forall i, parse_eid s = Some i -> obs = [ex i; ey i; ef i]) /\ ((length (split s) < 5)%nat -> obs = []).
-Definition check_voxel (s : string) (obs : list Z) : bool :=
-  match parse_eid s with
-  | Some i => list_eqb Z.eqb obs [ex i; ey i; ef i]
-  | None => if Nat.ltb (length (split s)) 5 then list_eqb Z.eqb obs [] else true
-  end.
-Lemma parse_eid_arity s i : parse_eid s = Some i -> length (split s) = 5%nat.
-Proof. unfold parse_eid. destruct (split s) as [|a [|b [|c [|d [|e [|g r]]]]]]; try discriminate. reflexivity. Qed.
+  obs = voxel_id s /\ (forall i, parse_eid s = Some i -> obs = [ex i; ey i; ef i]) /\ ((length (split s) < 5)%nat -> obs = []).
+Definition check_voxel (s : string) (obs : list Z) : bool := list_eqb Z.eqb obs (voxel_id s).
 Theorem check_voxel_sound s obs : check_voxel s obs = true <-> voxel_spec s obs.
 Proof.
-  unfold check_voxel, voxel_spec. destruct (parse_eid s) as [i|] eqn:E.
-  - rewrite Zlist_eqb_spec. pose proof (parse_eid_arity s i E) as A. split.
-    + intros ->. split; [intros j [= <-]; reflexivity|lia].
-    + intros [H _]. now apply H.
-  - destruct (Nat.ltb_spec (length (split s)) 5) as [L|L].
-    + rewrite Zlist_eqb_spec. split; [intros ->; split; [intros i; discriminate|reflexivity]|intros [_ H]; now apply H].
-    + split; [intros _; split; [intros i; discriminate|lia]|reflexivity].
+  unfold check_voxel, voxel_spec. rewrite Zlist_eqb_spec. split; [|tauto]. intros ->. split; [reflexivity|]. split.
+  - intros i H. now apply voxel_id_spec.
+  - intros H. now apply voxel_id_empty.
 Qed.
 Theorem voxel_model_spec s : voxel_spec s (voxel_id s).
-Proof. split; [intros i H; now apply voxel_id_spec|intros H; now apply voxel_id_empty]. Qed.
+Proof. apply check_voxel_sound. unfold check_voxel. now apply Zlist_eqb_spec. Qed.
 
 (* ---- ResetExtendedSpatialID on ONE object, several times in a row: the object after a successful reset is determined by the last string
         alone (no field survives from an earlier value); a failed reset returns an error and (as the code is written: the fields are assigned
